@@ -265,6 +265,35 @@ def resources_family():
     return out
 
 
+def resource_loops_family():
+    """resource directory trees whose sub-directory offsets point back to a parent, to themselves or at each other"""
+    out = []
+
+    def rdir(named, ids, entries):
+        return w32(0) + w32(0) + w16(0) + w16(0) + w16(named) + w16(ids) + b"".join(entries)
+    targets = {"root": "root", "typedir": "typedir", "namedir": "namedir", "langdir": "langdir"}
+    for t_type in ("typedir", "root", "namedir"):
+        for t_name in ("namedir", "root", "typedir", "langdir"):
+            for t_lang in ("dentry", "root", "typedir", "namedir", "langdir"):
+                if (t_type, t_name, t_lang) == ("typedir", "namedir", "dentry"):
+                    continue
+                for width in (1, 40):
+                    L = Layout()
+                    base = lambda r: r["root"]
+                    sub = lambda r, n: w32(0x80000000 | (r[n] - base(r)))
+                    L.add("root", 16 + 8 * width, lambda r, o, a=t_type, w=width: rdir(0, w, [w32(16 + i) + sub(r, a) for i in range(w)]))
+                    L.add("typedir", 16 + 8 * width, lambda r, o, a=t_name, w=width: rdir(0, w, [w32(1 + i) + sub(r, a) for i in range(w)]))
+                    L.add("namedir", 16 + 8 * width, lambda r, o, a=t_lang, w=width: rdir(0, w, [
+                        w32(0x409) + (w32(r["dentry"] - base(r)) if a == "dentry" else sub(r, a)) for i in range(w)]))
+                    L.add("langdir", 16 + 8, lambda r, o: rdir(0, 1, [w32(0x409) + sub(r, "root")]))
+                    L.add("dentry", 16, lambda r, o: w32(r["root"]) + w32(64) + w32(0) + w32(0))
+                    L.dirs[2] = ("root", 0x1000, False)
+                    f, off, rva = L.build("dentry", 8)
+                    out.append(("resource-loops", "resources: %d entries per directory; root entries -> %s, type-level entries -> %s, name-level entries -> %s "
+                                "(sub-directory offsets that loop back)" % (width, t_type, t_name, t_lang), f))
+    return out
+
+
 # ------------------------------------------------------------------ certificates (security directory: file offset)
 def certs_family():
     out = []
@@ -304,7 +333,7 @@ def pe_cases(rng, quick):
     """[(family, description, file bytes)] ; the quick tier keeps every export case and a stratified part of the others"""
     ex = exports_family()
     rest = []
-    for fam in (imports_family, debug_family, resources_family, certs_family):
+    for fam in (imports_family, debug_family, resources_family, resource_loops_family, certs_family):
         cases = fam()
         if quick:
             rng.shuffle(cases)
@@ -373,6 +402,17 @@ def elf_cases(name, b, rng, quick):
                         out.append(("elf section %d (string table of section %d): copied to the end of the file without its final NUL, "
                                     "sh_size := %#x (physical %#x)%s" % (s["link"], i, claim, len(strs),
                                                                           "" if nameoff is None else ", st_name of symbol 1 := %#x" % nameoff), cmds))
+    # sh_link of the symbol tables: to itself, to the other symbol table, to section 0, one past the last section, 0xffff
+    symsecs = [i for i in range(min(shnum, 64)) if sec(i) and sec(i)["type"] in (2, 11)]
+    for i in symsecs:
+        s = sec(i)
+        lo = s["hdr"] + (40 if is64 else 24)
+        for tgt, tname in [(i, "itself")] + [(j, "symbol table %d" % j) for j in symsecs if j != i] + [(0, "section 0"), (shnum, "one past the last section"),
+                                                                                                    (0xffff, "0xffff"), (max(shnum - 1, 0), "the last section")]:
+            out.append(("elf section %d (type %d): sh_link := %s" % (i, s["type"], tname), ["patch %d %s" % (lo, w32(tgt).hex())]))
+    # the section-name string table index
+    for v, vn in ((0, "0"), (shnum, "e_shnum"), (0xffff, "0xffff")) + tuple((i, "symbol table %d" % i) for i in symsecs[:1]):
+        out.append(("elf e_shstrndx := %s" % vn, ["patch %d %s" % (62 if is64 else 50, w16(v).hex())]))
     for i in range(min(phnum, 32)):
         o = phoff + phs * i
         if o + phs > F or struct.unpack_from("<I", b, o)[0] != 2:      # PT_DYNAMIC
@@ -397,7 +437,7 @@ def elf_cases(name, b, rng, quick):
                 cmds = ["append " + tab[:len(tab) - cut].hex(), "patch %d %s" % (f_off, pk(F).hex()), "patch %d %s" % (f_sz, pk(claim).hex())]
                 out.append(("elf PT_DYNAMIC (segment %d): %d entries without DT_NULL copied to the end of the file (last entry cut by %d), "
                             "p_filesz := %#x" % (i, len(ents[:8]), cut, claim), cmds))
-    if quick and len(out) > 90:
+    if quick and len(out) > 110:
         rng.shuffle(out)
-        out = out[:90]
+        out = out[:110]
     return out
